@@ -3,6 +3,7 @@ package c08
 import (
 	"bytes"
 	"fmt"
+	"reflect"
 	"runtime"
 	"strings"
 
@@ -86,6 +87,7 @@ func other() *Other {
 
 var sortOpt = &ojg.Options{Sort: true}
 var emptyOpt = &ojg.Options{Sort: true, OmitEmpty: true}
+var indentOpt = &ojg.Options{Sort: true, Indent: 2}
 
 func errText(err error) string {
 	if err == nil {
@@ -289,6 +291,10 @@ func Groups() []*Group {
 			{"alt.Decompose(*Outer)", func() (string, []byte) { return mach.Canon(alt.Decompose(outer())), nil }},
 			{"alt.Decompose(*Outer,omitEmpty)", func() (string, []byte) { return mach.Canon(alt.Decompose(outer(), emptyOpt)), nil }},
 			{"pretty.JSON(*Other)", func() (string, []byte) { return pretty.JSON(other(), sortOpt), nil }},
+			// the indented writers are separate copies of the tight ones
+			{"oj.JSON(*Outer,indent)", func() (string, []byte) { return oj.JSON(outer(), indentOpt), nil }},
+			{"oj.JSON(*Other,indent)", func() (string, []byte) { return oj.JSON(other(), indentOpt), nil }},
+			{"sen.String(*Outer,indent)", func() (string, []byte) { return sen.String(outer(), indentOpt), nil }},
 		}},
 		{Name: "alt", Shared: "alt.DefaultRecomposer (types registered beforehand), private recomposer", Ops: []Op{
 			{"alt.Generify", func() (string, []byte) { return mach.Canon(alt.Generify(long())), nil }},
@@ -384,4 +390,44 @@ func Groups() []*Group {
 			return snap.Dump(sharedExpr) + snap.Dump(sharedScript) + snap.Dump(sharedFilter) + snap.Dump(wild) + snap.Dump(locExpr) + snap.Dump(listScript) + snap.Dump(listExpr)
 		}},
 	}
+}
+
+// ResetCaches empties the struct plan caches of oj, sen and alt (hooks of the
+// verif build): the race pass calls it after it has computed the expected
+// results, so that the types are first seen by the concurrent calls.
+func ResetCaches() { reset() }
+
+// FreshTypeWrite writes a value of a struct type no encoder has seen before
+// (built with reflect.StructOf, named after goroutine and iteration) through
+// one of the encoders, tight or indented: in the race pass a type is then seen
+// for the first time - the plan caches are written - all the time and not only
+// in the first moments of the run. It returns a message if the text is wrong.
+func FreshTypeWrite(t, i int) string {
+	name := fmt.Sprintf("F%dx%d", t, i)
+	typ := reflect.StructOf([]reflect.StructField{{Name: name, Type: reflect.TypeOf(0)}, {Name: "In", Type: reflect.TypeOf(Inner{})}})
+	v := reflect.New(typ).Elem()
+	v.Field(0).SetInt(7)
+	val := v.Addr().Interface()
+	var text string
+	switch (t + i) % 7 {
+	case 0:
+		text = oj.JSON(val, sortOpt)
+	case 1:
+		text = oj.JSON(val, indentOpt)
+	case 2:
+		text = sen.String(val, sortOpt)
+	case 3:
+		text = sen.String(val, indentOpt)
+	case 4:
+		text = mach.Canon(alt.Decompose(val))
+	case 5:
+		text = pretty.JSON(val, sortOpt)
+	case 6:
+		text = oj.JSON(val, emptyOpt)
+	}
+	key := "f" + name[1:]
+	if !strings.Contains(text, key) || !strings.Contains(text, "7") {
+		return fmt.Sprintf("fresh struct type %s written as %q", name, text)
+	}
+	return ""
 }
